@@ -29,6 +29,9 @@ def reps(lo, hi):
 
 def run(prog, chk):
     fanout_tables(prog, chk)
+    from ksirules import recycle
+    chk.rule("C15.recycle", "a recycled HA request object starts with a zero response count and cleared flags", floor=6)
+    recycle.check(prog, chk, "C15.recycle", ["KSI_HighAvailabilityRequest_new"])
     _run(prog, chk)
 
 
